@@ -104,6 +104,27 @@ func generate(w *mon.W) {
 			do(p.Src)
 		}
 	}
+	// every family once more as one statement among several (the paths taken
+	// when a program is rejected as a whole: batch queries, lets after the query)
+	for _, size := range []int{64, 1024} {
+		for _, p := range gen.Patho(size) {
+			do("T; " + p.Src)
+			do(p.Src + "; T | count")
+			do("let q = 1; " + p.Src + "; let r = q")
+		}
+	}
+	// tokens made of multi-byte characters, in every length around the
+	// widths a message or a buffer may be cut at, where an error names them
+	for _, ch := range []string{"a", "é", "日", "😊", "\xff"} {
+		for _, n := range []int{1, 2, 3, 7, 8, 9, 10, 11, 12, 13, 15, 16, 17, 23, 24, 25, 31, 32, 33, 63, 64, 65} {
+			body := strings.Repeat(ch, n)
+			for _, tok := range []string{"'" + body + "'", "\"" + body + "\"", "`" + body + "`", body} {
+				for _, tmpl := range []string{"T | take %s", "T | %s", "%s | where", "T | where a %s", "T | join kind=%s (U) on k", "T | render x with (%s)", "let %s", "T | where f(%s", "T | sort by a %s", "T | as %s %s", "T | project a = %s %s"} {
+					do(strings.ReplaceAll(tmpl, "%s", tok))
+				}
+			}
+		}
+	}
 	seeds := gen.Seeds()
 	for _, s := range seeds {
 		do(s)
